@@ -178,7 +178,35 @@ pub fn all() -> Vec<Line> {
 /// C37: inscriptions created, moved, sent to an OP_RETURN output, sent to fees, a child of a
 /// carried parent, next to rune etching / mint / transfer / burn in the same blocks
 pub fn events() -> Vec<Line> {
-  let mut s = S::with(ChainOpts { events: true });
+  vec![events_scenario(false), events_scenario(true), events_burst()]
+}
+
+/// receiver mode (capacity-1 channel, slow consumer): 40 reveals in one block, all 40 moved in the
+/// next, half of them onto OP_RETURN outputs in a third
+pub fn events_burst() -> Line {
+  let mut s = S::with(ChainOpts { events: true, slow: true });
+  let ins_w = |body: String| -> Vec<Vec<u8>> {
+    let i = ord::Inscription { content_type: Some(b"text/plain".to_vec()), body: Some(body.into_bytes()), ..Default::default() };
+    vec![i.append_reveal_script_to_builder(bitcoin::script::Builder::new()).into_script().into_bytes(), vec![]]
+  };
+  let mut specs = Vec::new();
+  for k in 0..40 {
+    let mut f = s.fund();
+    f.witness = ins_w(format!("burst{k}"));
+    specs.push(TxSpec { ins: vec![f], outs: vec![OutSpec::P2wpkh] });
+  }
+  let t = s.block(&specs);
+  let specs: Vec<TxSpec> = (0..40).map(|k| TxSpec { ins: vec![input((t[k + 1], 0))], outs: vec![OutSpec::P2tr] }).collect();
+  let t2 = s.block(&specs);
+  let specs: Vec<TxSpec> = (0..20)
+    .map(|k| TxSpec { ins: vec![input((t2[2 * k + 1], 0))], outs: vec![OutSpec::Script(vec![0x6a, 0x01, 0x58]), OutSpec::P2wpkh] })
+    .collect();
+  s.block(&specs);
+  s.c.line()
+}
+
+fn events_scenario(slow: bool) -> Line {
+  let mut s = S::with(ChainOpts { events: true, slow });
   let ins_w = |body: &str, parents: Vec<Vec<u8>>| -> Vec<Vec<u8>> {
     let i = ord::Inscription { content_type: Some(b"text/plain".to_vec()), body: Some(body.as_bytes().to_vec()), parents, ..Default::default() };
     vec![i.append_reveal_script_to_builder(bitcoin::script::Builder::new()).into_script().into_bytes(), vec![]]
@@ -232,7 +260,7 @@ pub fn events() -> Vec<Line> {
   ]);
   s.block(&[TxSpec { ins: vec![input((t4[2], 0))], outs: vec![opret(), OutSpec::P2wpkh] }]);
   s.block(&[]);
-  vec![s.c.line()]
+  s.c.line()
 }
 
 /// C11: reveals with several inputs whose tapscripts push the commitment, in every order of
